@@ -318,6 +318,13 @@ func runSchedOnce(sc schedScenario, prefix []int) *schedOutcome {
 	for _, q := range []*Queue{outReq, outRes, inReq, inRes} {
 		q.Close(nil)
 	}
+	if !linkEnded {
+		// let this run's Link goroutine finish, so that its events do not leak into the next run's trace
+		select {
+		case <-linkErr:
+		case <-time.After(time.Second):
+		}
+	}
 	pmu.Lock()
 	reqByTag[77] = "x"
 	for c := 0; c < sc.Calls; c++ {
@@ -348,6 +355,37 @@ func subSched(args []string) {
 	}
 	n := 0
 	seen := map[string]bool{}
+	var modelLines []string
+	var modelSpans [][2]int
+	var modelScheds []string
+	defer func() {
+		// trace validation: every distinct trace is replayed on the Lean endpoint model M2
+		if len(modelLines) == 0 {
+			return
+		}
+		ans, err := runDriver(modelLines)
+		if err != nil {
+			fmt.Fprintf(w, "MODELBAD driver failed: %v\n", err)
+			return
+		}
+		okRuns, steps := 0, 0
+		for i, sp := range modelSpans {
+			bad := ""
+			for k := sp[0]; k < sp[1]; k++ {
+				if strings.HasPrefix(ans[k], "rejected") || strings.HasPrefix(ans[k], "bad-op") {
+					bad = fmt.Sprintf("%s (step %d of %d)", ans[k], k-sp[0], sp[1]-sp[0])
+					break
+				}
+				steps++
+			}
+			if bad != "" {
+				fmt.Fprintf(w, "MODELBAD M2 rejects an implementation step: %s | schedule=%s\n", bad, modelScheds[i])
+			} else {
+				okRuns++
+			}
+		}
+		fmt.Fprintf(w, "MODEL traces=%d steps=%d\n", okRuns, steps)
+	}()
 	for {
 		fmt.Fprintf(w, "RUN %v\n", sched)
 		w.Flush()
@@ -369,6 +407,12 @@ func subSched(args []string) {
 		key := kb.String()
 		if !seen[key] {
 			seen[key] = true
+			if len(o.Problems) == 0 && len(modelSpans) < 400 {
+				ml := epLines(o.Trace)
+				modelSpans = append(modelSpans, [2]int{len(modelLines), len(modelLines) + len(ml)})
+				modelLines = append(modelLines, ml...)
+				modelScheds = append(modelScheds, fmt.Sprint(o.Schedule))
+			}
 		}
 		for _, p := range o.Problems {
 			fmt.Fprintf(w, "BAD %s | schedule=%v\n", p, o.Schedule)
@@ -386,14 +430,31 @@ func subSched(args []string) {
 }
 
 func runSchedSuite(rep *Report, tier string, seed int64, prop string) {
-	rep.Rule = "scenarios {call+response, +cancel, call+cancel, two identical responses (+cancel), response vs link cancellation, two calls with one cancelled, read error followed by a new call on the dead link}: " +
+	only := map[string][]int{"C03": {5, 6, 8, 9}, "C16": {5, 6, 8, 9}}[prop]
+	schedRule := ""
+	schedRule = "scenarios {call+response, +cancel, call+cancel, two identical responses (+cancel), response vs link cancellation, two calls with one cancelled, read error followed by a new call on the dead link}: " +
 		"the caller, its waiter, the response reader, the publishers, the canceller and a raw scripted peer run under the controlled scheduler, which explores the interleavings at the yield points of the real registry (DFS over choice vectors, capped per scenario), each scenario in a child process. " +
 		"Oracle (from the property statements): process alive, every call returns its own response or (zero, ctx error), never both, never blocks once answered/cancelled/ended; a per-call cancellation leaves the link healthy (follow-up call succeeds); Link returns the first failure. distinct = distinct event traces"
+	schedRule += " Every distinct trace without findings is replayed on the Lean endpoint model M2 (trace validation)."
+	if rep.Rule == "" {
+		rep.Rule = schedRule
+	} else {
+		rep.Rule += " || plus schedule exploration: " + schedRule
+	}
 	capN := 120
 	if tier == "thorough" {
 		capN = 2500
 	}
 	for i, sc := range schedScenarios {
+		if only != nil {
+			in := false
+			for _, k := range only {
+				in = in || k == i
+			}
+			if !in {
+				continue
+			}
+		}
 		cmd := exec.Command(os.Args[0], "-sub", "sched", fmt.Sprint(i), fmt.Sprint(capN))
 		outB, err := cmd.Output()
 		runs, distinct := 0, 0
@@ -408,6 +469,9 @@ func runSchedSuite(rep *Report, tier string, seed int64, prop string) {
 				if (prop == "C16") != isC16 && prop != "C05" {
 					continue
 				}
+				if prop == "C03" && !strings.Contains(msg, "has not returned") && !strings.Contains(msg, "returned success without") && !strings.Contains(msg, "nil error") {
+					continue // C03 judges only what happens to calls when the link ends
+				}
 				kind := msg
 				for _, d := range "0123456789" {
 					kind = strings.ReplaceAll(kind, string(d), "")
@@ -419,6 +483,15 @@ func runSchedSuite(rep *Report, tier string, seed int64, prop string) {
 					map[string]any{"suite": "sched", "scenario": sc, "schedule": schedS, "cmd": fmt.Sprintf("bin/harness -sub sched %d 16 '%s'", i, strings.Trim(schedS, "[]"))})
 			case strings.HasPrefix(l, "DONE "):
 				fmt.Sscanf(l, "DONE runs=%d distinct=%d", &runs, &distinct)
+			case strings.HasPrefix(l, "MODEL traces="):
+				var t, st int
+				fmt.Sscanf(l, "MODEL traces=%d steps=%d", &t, &st)
+				rep.TracesValidated += t
+				rep.ModelSteps += st
+			case strings.HasPrefix(l, "MODELBAD "):
+				msg, schedS, _ := strings.Cut(l[9:], " | schedule=")
+				rep.addViolation("correspondence", fmt.Sprintf("%s:endpoint-model:%s", prop, sc.Name), fmt.Sprintf("scenario %s: %s", sc.Name, msg),
+					map[string]any{"suite": "sched", "scenario": sc, "schedule": schedS, "cmd": fmt.Sprintf("bin/harness -sub sched %d 16 '%s'", i, strings.Trim(schedS, "[]"))})
 			}
 		}
 		rep.Evaluations += runs
